@@ -44,7 +44,7 @@ func genC01(c *Ctx, r *rng.R, i int) {
 		args []cty.Value
 	}
 	var p plan
-	switch r.Intn(12) {
+	switch r.Intn(14) {
 	case 0, 1, 2:
 		p = plan{[]string{"OAdd", "OSub", "OMul", "ODiv", "OMod"}[r.Intn(5)], []cty.Value{num(), num()}}
 	case 3, 4:
@@ -91,8 +91,13 @@ func genC01(c *Ctx, r *rng.R, i int) {
 			k = cty.NumberIntVal(int64(r.Intn(4)))
 		}
 		p = plan{[]string{"OIndex", "OHasIndex"}[r.Intn(2)], []cty.Value{v, k}}
-	case 10:
+	case 10, 12, 13:
 		v, t := collOf(gt.Set)
+		if r.Chance(60) { // sets of structured members: membership of an element that is only partly known
+			for k := 0; k < 20 && !(t.Elem.K == gt.Tuple || t.Elem.K == gt.List || t.Elem.K == gt.Obj || t.Elem.K == gt.Set); k++ {
+				v, t = collOf(gt.Set)
+			}
+		}
 		var e cty.Value
 		var ms []cty.Value
 		if !v.IsNull() {
@@ -104,6 +109,16 @@ func genC01(c *Ctx, r *rng.R, i int) {
 			e = gv.Gen(r, t.Elem, gv.KnownCfg, 1)
 		}
 		p = plan{"OHasElem", []cty.Value{v, e}}
+		// directed: a member of the (unchanged) set, with something inside it replaced by an unknown
+		if len(ms) > 0 && r.Chance(50) && stringsOKSafe(v) {
+			m := ms[r.Intn(len(ms))]
+			for k := 0; k < 6; k++ {
+				if w := gv.Weaken(r, m, 60, false); !w.RawEquals(m) && w.IsKnown() {
+					c01Pair(c, "OHasElem", []cty.Value{v, m}, []cty.Value{v, w}, true)
+					break
+				}
+			}
+		}
 	default:
 		v, _ := collOf(gt.List, gt.Map, gt.Set, gt.Tuple)
 		p = plan{"OLen", []cty.Value{v}}
